@@ -30,6 +30,13 @@ VEC_REVERSE = "core::slice::<impl [T]>::reverse"
 INDEX = "core::ops::index::Index::index"
 SLICE_LEN = "core::slice::<impl [T]>::len"
 SLICE_IS_EMPTY = "core::slice::<impl [T]>::is_empty"
+TRY_BRANCH = "core::ops::try_trait::Try::branch"
+FROM_RESIDUAL = "core::ops::try_trait::FromResidual::from_residual"
+WRAPPERS = ("core::result::Result", "core::option::Option", "core::ops::control_flow::ControlFlow")
+SLICE_CONTAINS = "core::slice::<impl [T]>::contains"
+RANGE_INCL_CONTAINS = "core::ops::range::RangeInclusive::<Idx>::contains"
+RANGE_CONTAINS = "core::ops::range::Range::<Idx>::contains"
+RANGE_INCL_NEW = "core::ops::range::RangeInclusive::<Idx>::new"
 DEREF = "core::ops::deref::Deref::deref"
 DEREF_MUT = "core::ops::deref::DerefMut::deref_mut"
 
@@ -109,6 +116,30 @@ def _mentions(s, key):
     return any(x == key or _mentions(x, key) for x in s[1:])
 
 
+def _apply_memb(st, sy, inside):
+    """restrict len(key) to the set (inside) or to its complement; False if infeasible"""
+    key, vals = sy[1], sy[2]
+    iv = st.vec.get(key, (0, INF, None))
+    if inside:
+        ok = [v for v in vals if iv[0] <= v <= iv[1]]
+        if not ok:
+            return False
+        r = refine(refine(iv, "Ge", min(ok)) or iv, "Le", max(ok))
+    else:
+        r = iv
+        changed = True
+        while r is not None and changed:
+            changed = False
+            for v in vals:
+                if r is not None and (r[0] == v or r[1] == v):
+                    r = refine(r, "Ne", v)
+                    changed = True
+    if r is None:
+        return False
+    st.vec[key] = r
+    return True
+
+
 def _apply_sel(st, sy, val):
     """restrict the state to the paths on which the boolean had value `val`; False if there is none"""
     hit = [dict(items) for v, items in sy[1] if v == val]
@@ -124,6 +155,15 @@ def _apply_sel(st, sy, val):
             orig = None
         st.vec[key] = (lo, hi, orig)
     return True
+
+
+import re
+_DOWNCAST_KEY = re.compile(r"^\(_(\d+) as (\w+)\)")
+
+
+def _under(key, base):
+    """key denotes `base` or something inside it"""
+    return key == base or key.startswith(base + ".") or key.startswith("(*" + base + ")") or key.startswith("(" + base + " as ")
 
 
 class State:
@@ -142,7 +182,14 @@ class State:
             if k in self.vec and k in other.vec:
                 vec[k] = join_iv(self.vec[k], other.vec[k])
             else:
-                vec[k] = (0, INF, None)
+                have, miss = (self, other) if k in self.vec else (other, self)
+                m = _DOWNCAST_KEY.match(k)
+                mv = miss.sym.get(int(m.group(1))) if m else None
+                if mv and mv[0] == "variant" and mv[1] != m.group(2):
+                    # the payload of variant V of a local that IS another variant on the other path: no such value there
+                    vec[k] = have.vec[k]
+                else:
+                    vec[k] = (0, INF, None)
         sym = {}
         for l, a in self.sym.items():
             b = other.sym.get(l)
@@ -170,6 +217,7 @@ class VecLen:
         self.site_elem = {}      # bb -> ('elem', key, orig index) for remove/index sites
         self.site_state = {}     # bb -> (key, (lo,hi,orig)) state of the vec just before the site
         self.drains = tail_drains(fn)
+        self._pv = None
         self._run()
 
     def _is_vec_local(self, l):
@@ -208,8 +256,56 @@ class VecLen:
             return None
         return None
 
+    def _always_err(self, name):
+        from .prov import always_err_fn
+        return bool(name) and name in self.fn.prog.fns and always_err_fn(self.fn.prog, name)
+
+    def _const_set(self, st, bb, t, name):
+        """the constant set a `contains` call tests membership in, or None"""
+        if name in (RANGE_INCL_CONTAINS, RANGE_CONTAINS):
+            r = self._sym_of_operand(st, t["args"][0])
+            if r and r[0] == "ref" and r[1].startswith("_") and r[1][1:].isdigit():
+                r = st.sym.get(int(r[1][1:]))
+            if r and r[0] == "crange" and 0 <= r[2] - r[1] <= 64:
+                return set(range(r[1], r[2]))
+            if r and r[0] == "range" and r[1] and r[2] and r[1][0] == "const" and r[2][0] == "const" and 0 <= r[2][1] - r[1][1] <= 64:
+                return set(range(r[1][1], r[2][1]))
+            # a constant range (`(3..=4)` is promoted to a constant)
+            from .prov import Prov, resolve_consts
+            if self._pv is None:
+                self._pv = Prov(self.fn)
+            a0 = resolve_consts(self.fn.prog, self._pv.operand_term(t["args"][0], bb, "term"))
+            while a0[0] in ("ref", "deref"):
+                a0 = a0[1]
+            if a0[0] == "call" and a0[1] == RANGE_INCL_NEW and len(a0[2]) == 2 and all(
+                    x[0] == "const" and isinstance(x[1], int) and not isinstance(x[1], bool) for x in a0[2]):
+                if 0 <= a0[2][1][1] + 1 - a0[2][0][1] <= 64:
+                    return set(range(a0[2][0][1], a0[2][1][1] + 1))
+            if a0[0] == "aggr" and a0[1] in ("core::ops::range::RangeInclusive", "core::ops::range::Range"):
+                f = dict(a0[3])
+                lo, hi = f.get("start"), f.get("end")
+                if lo and hi and lo[0] == "const" and hi[0] == "const" and isinstance(lo[1], int) and isinstance(hi[1], int):
+                    hi1 = hi[1] + (1 if a0[1].endswith("RangeInclusive") else 0)
+                    if 0 <= hi1 - lo[1] <= 64:
+                        return set(range(lo[1], hi1))
+            return None
+        from .prov import Prov, resolve_consts
+        if self._pv is None:
+            self._pv = Prov(self.fn)
+        a0 = resolve_consts(self.fn.prog, self._pv.operand_term(t["args"][0], bb, "term"))
+        while a0[0] in ("ref", "deref") or (a0[0] == "cast" and a0[1].startswith("PointerCoercion")):
+            a0 = a0[1] if a0[0] != "cast" else a0[2]
+        if a0[0] == "array" and all(x[0] == "const" and isinstance(x[1], int) and not isinstance(x[1], bool) for x in a0[1]):
+            return {x[1] for x in a0[1]}
+        return None
+
     def _iv(self, st, key):
         return st.vec.get(key, (0, INF, None))
+
+    def _copy_facts(self, st, src, dst):
+        for key in list(st.vec):
+            if _under(key, src):
+                st.vec[dst + key[len(src):] if key.startswith(src) else key.replace(src, dst, 1)] = st.vec[key]
 
     def _forget_syms(self, st, key):
         """the length of `key` changed in an unknown way: values derived from its old length say nothing any more"""
@@ -224,6 +320,8 @@ class VecLen:
                 st.sym[l] = ("len", key, s[2] + d)
             elif s[0] == "cmp" and s[2] == key:
                 st.sym[l] = ("cmp", s[1], key, s[3] - d)
+            elif s[0] in ("memb", "nmemb") and s[1] == key:
+                st.sym[l] = (s[0], key, tuple(v - d for v in s[2]))
             elif s[0] not in ("ref", "elem") and _mentions(s, key):
                 del st.sym[l]
 
@@ -246,12 +344,17 @@ class VecLen:
         # a whole-local assignment invalidates vec facts keyed under that local
         base = "_%d" % l
         for key in list(st.vec):
-            if key == base or key.startswith(base + ".") or key.startswith("(*" + base + ")"):
+            if _under(key, base):
                 del st.vec[key]
                 self._forget_syms(st, key)
         k = rv["k"]
         if k == "ref":
-            st.sym[l] = ("ref", place_key(rv["place"]))
+            pl = rv["place"]
+            inner = st.sym.get(pl["l"]) if len(pl["p"]) == 1 and pl["p"][0][0] == "deref" else None
+            if inner and inner[0] == "ref":
+                st.sym[l] = inner          # `&*r` is `r`
+            else:
+                st.sym[l] = ("ref", place_key(pl))
         elif k == "use":
             op = rv["op"]
             sy = self._sym_of_operand(st, op)
@@ -259,10 +362,7 @@ class VecLen:
                 st.sym[l] = sy
             if op["k"] in ("copy", "move"):
                 src = place_key(op["place"])
-                if src in st.vec:
-                    st.vec[base] = st.vec[src]
-                    if op["k"] == "move" and not op["place"]["p"]:
-                        pass
+                self._copy_facts(st, src, base)
         elif k == "binop":
             a = self._sym_of_operand(st, rv["a"])
             b = self._sym_of_operand(st, rv["b"])
@@ -281,6 +381,16 @@ class VecLen:
             a = self._sym_of_operand(st, rv["a"])
             if a and a[0] == "cmp":
                 st.sym[l] = ("cmp", negate(a[1]), a[2], a[3])
+            elif a and a[0] in ("memb", "nmemb"):
+                st.sym[l] = ("nmemb" if a[0] == "memb" else "memb", a[1], a[2])
+        elif k == "discr" and not rv["place"]["p"] and rv.get("adt"):
+            st.sym[l] = ("discr", rv["place"]["l"], rv["adt"])
+        elif k == "aggr" and rv["kind"] == "adt" and rv.get("variant") and rv["adt"] in WRAPPERS:
+            # Ok(v) / Some(v) / Err(e): the local is that variant; length facts of a moved-in vec live on under the payload
+            st.sym[l] = ("variant", rv["variant"])
+            for fname, o in zip(rv.get("fields", []), rv["ops"]):
+                if o["k"] in ("copy", "move"):
+                    self._copy_facts(st, place_key(o["place"]), "(%s as %s).%s" % (base, rv["variant"], fname))
         elif k == "aggr" and rv["kind"] == "adt" and rv["adt"] == "core::ops::range::Range":
             ops = [self._sym_of_operand(st, o) for o in rv["ops"]]
             st.sym[l] = ("range", ops[0], ops[1])
@@ -294,12 +404,40 @@ class VecLen:
             st.sym.pop(dl, None)
             base = "_%d" % dl
             for key in list(st.vec):
-                if key == base or key.startswith(base + ".") or key.startswith("(*" + base + ")"):
+                if _under(key, base):
                     del st.vec[key]
                     self._forget_syms(st, key)
         key0 = self._vec_key_of_ref(st, args[0]) if args else None
+        if dl is not None and name == TRY_BRANCH and args and args[0]["k"] in ("copy", "move") and not args[0]["place"]["p"]:
+            x = args[0]["place"]["l"]
+            v = st.sym.get(x)
+            if v and v[0] == "variant":
+                st.sym[dl] = ("variant", {"Ok": "Continue", "Some": "Continue", "Err": "Break", "None": "Break"}.get(v[1], "?"))
+            for key in list(st.vec):
+                for ok in ("Ok", "Some"):
+                    pre = "(_%d as %s)" % (x, ok)
+                    if key.startswith(pre):
+                        st.vec["(_%d as Continue)" % dl + key[len(pre):]] = st.vec[key]
+            return
+        if dl is not None and (name == FROM_RESIDUAL or self._always_err(name)):
+            st.sym[dl] = ("variant", "Err")
+            return
         if name in (VEC_LEN, SLICE_LEN) and key0 and dl is not None:
             st.sym[dl] = ("len", key0, 0)
+            return
+        if name in (SLICE_CONTAINS, RANGE_INCL_CONTAINS, RANGE_CONTAINS) and dl is not None and len(args) == 2:
+            # `[3, 4].contains(&a.len())`, `(2..=3).contains(&len)`: membership of a tracked length in a constant set
+            needle = self._sym_of_operand(st, args[1])
+            if needle and needle[0] == "ref" and needle[1].startswith("_") and needle[1][1:].isdigit():
+                needle = st.sym.get(int(needle[1][1:]))
+            vals = self._const_set(st, bb, t, name)
+            if needle and needle[0] == "len" and vals is not None:
+                st.sym[dl] = ("memb", needle[1], tuple(sorted(v - needle[2] for v in vals)))
+            return
+        if name == RANGE_INCL_NEW and dl is not None and len(args) == 2:
+            a, b = self._sym_of_operand(st, args[0]), self._sym_of_operand(st, args[1])
+            if a and b and a[0] == "const" and b[0] == "const":
+                st.sym[dl] = ("crange", a[1], b[1] + 1)
             return
         if name in (VEC_IS_EMPTY, SLICE_IS_EMPTY) and key0 and dl is not None:
             st.sym[dl] = ("cmp", "Eq", key0, 0)
@@ -426,6 +564,13 @@ class VecLen:
                         feasible = False
                     else:
                         s2.vec[sy[1]] = r
+                elif sy and sy[0] == "discr":
+                    known = st.sym.get(sy[1])
+                    names = self.fn.prog.enums.get(sy[2]) or {}
+                    if known and known[0] == "variant" and v in names and names[v] != known[1]:
+                        feasible = False     # the local is known to be another variant on every path here
+                elif sy and sy[0] in ("memb", "nmemb") and t["ty"] == "bool":
+                    feasible = _apply_memb(s2, sy, bool(v) == (sy[0] == "memb"))
                 elif sy and sy[0] == "sel" and t["ty"] == "bool":
                     feasible = _apply_sel(s2, sy, bool(v))
                 elif sy and sy[0] == "bconst" and t["ty"] == "bool":
@@ -440,6 +585,8 @@ class VecLen:
                     feasible = False
                 else:
                     s2.vec[sy[2]] = r
+            elif sy and sy[0] in ("memb", "nmemb") and t["ty"] == "bool" and vals in ([0], [1]):
+                feasible = _apply_memb(s2, sy, (vals == [0]) == (sy[0] == "memb"))
             elif sy and sy[0] == "sel" and t["ty"] == "bool" and vals in ([0], [1]):
                 feasible = _apply_sel(s2, sy, vals == [0])
             elif sy and sy[0] == "bconst" and t["ty"] == "bool" and vals in ([0], [1]):
